@@ -7,3 +7,5 @@ def run(ctx):
     # the signature (and table) these formulas read are the ones the caller handed to build_sampler (restated from C05-b)
     from .restate import restate_sampler_is_callers
     restate_sampler_is_callers(ctx)
+    from .restate import restate_loops_if_kernels_take_them
+    restate_loops_if_kernels_take_them(ctx, 'C09-f', ('uvec', 'vpoly', 'lmatrix'), 'the u vectors / V / L')
